@@ -5,8 +5,10 @@
        Inexact and the case is re-run with
      * OCaml floats (IEEE doubles, libm sqrt/exp).
    Numbers are printed as p/q (exact run) or as C99 hex floats (float run); the first token says which.
-   The driver only parses the kernel expression and composes the extracted combinators; it contains no
-   kernel arithmetic of its own. *)
+   The driver only parses the kernel expression and composes the extracted combinators (values k_*, b_*, coded
+   gradients g_xxx, p_xxx); it contains no kernel arithmetic of its own (it only counts the parameters).
+   WI = wid (coded weightedInputDerivative), WP = wpdv (coded weightedParameterDerivative, whole parameter vector),
+   WP1 = wpd (one-parameter leaves); a field is absent when the modelled class has no such derivative. *)
 open C05_model
 
 let rec nat_of_int n = if n <= 0 then O else S (nat_of_int (n - 1))
@@ -97,37 +99,46 @@ module Make (A : ARITH) = struct
     k : vec -> vec -> A.t;
     bk : vec list -> vec list -> A.t list list;
     normalized : bool;
-    g : (vec -> vec -> vec) option;          (* coded input gradient, where modelled *)
-    p : (vec -> vec -> A.t) option;          (* coded derivative w.r.t. the single parameter, where modelled *)
+    g : (vec -> vec -> vec) option;          (* coded input gradient per pair of points (None: the class has none) *)
+    p1 : (vec -> vec -> A.t) option;         (* one-parameter leaves: the scalar derivative (for wpd) *)
+    pv : (int * (vec -> vec -> vec)) option; (* number of parameters, coded gradient w.r.t. the parameter vector per pair *)
   }
   let toks = ref ([] : string list)
   let next () = match !toks with [] -> failwith "spec" | t :: r -> toks := r; t
   let nexti () = int_of_string (next ())
+  let all_some f l = if List.for_all (fun b -> f b <> None) l then Some (List.map (fun b -> match f b with Some v -> v | None -> assert false) l) else None
   let rec parse dim : node =
     match next () with
-    | "LIN" -> { k = k_lin zero add mul; bk = b_lin zero add mul; normalized = false; g = Some g_lin; p = None }
+    | "LIN" -> { k = k_lin zero add mul; bk = b_lin zero add mul; normalized = false; g = Some g_lin; p1 = None; pv = Some (0, p_none) }
     | "POLY" ->
       let d = nexti () in let c = A.parse (next ()) in let dp = next () = "1" in let un = next () = "1" in
       let d' = nat_of_int d in
+      let p = p_poly zero one add mul div isz d' c in
       { k = k_poly zero one add mul d' c; bk = b_poly zero one add mul d' c; normalized = false;
         g = Some (g_poly zero one add mul div isz d' c);
-        p = if dp || un then None else Some (p_poly zero one add mul div isz d' c) }
+        p1 = if dp || un then None else Some p;
+        (* unconstrained encoding: offset = exp(parameter), the coded gradient is multiplied by the offset *)
+        pv = if dp then None else Some (1, if un then g_scaled mul c (p_one p) else p_one p) }
     | "MONO" -> let d' = nat_of_int (nexti ()) in
       { k = k_mono zero one add mul d'; bk = b_mono zero one add mul d'; normalized = false;
-        g = Some (g_mono zero one add mul div isz d'); p = None }
+        g = Some (g_mono zero one add mul div isz d'); p1 = None; pv = Some (0, p_none) }
     | "RBF" -> let gm = A.parse (next ()) in let un = next () = "1" in
+      let p = p_gauss zero add mul sub opp exp gm in
       { k = k_gauss zero add mul sub opp exp gm; bk = b_gauss zero add mul sub opp exp gm; normalized = true;
         g = Some (g_gauss zero one add mul sub opp exp gm);
-        p = if un then None else Some (p_gauss zero add mul sub opp exp gm) }
+        p1 = if un then None else Some p;
+        pv = Some (1, if un then g_scaled mul gm (p_one p) else p_one p) }
     | "ARD" -> let gs = List.init dim (fun _ -> A.parse (next ())) in
       { k = k_ard zero add mul sub opp exp gs; bk = b_ard zero add mul sub opp exp gs; normalized = true;
-        g = Some (g_ard zero one add mul sub opp exp gs); p = None }
+        g = Some (g_ard zero one add mul sub opp exp gs); p1 = None; pv = Some (dim, p_ard zero add mul sub opp exp gs) }
     | "NORM" -> let b = parse dim in
-      { k = k_norm div sqrt b.k; bk = b_norm zero mul div sqrt b.bk; normalized = true; g = None; p = None }
+      { k = k_norm div sqrt b.k; bk = b_norm zero mul div sqrt b.bk; normalized = true;
+        g = (match b.g with Some g -> Some (g_norm one add mul div opp sqrt b.k g) | None -> None); p1 = None;
+        pv = (match b.pv with Some (m, p) -> Some (m, p_norm one add mul div opp sqrt b.k p) | None -> None) }
     | "SCALED" -> let f = A.parse (next ()) in let b = parse dim in
       { k = k_scaled mul f b.k; bk = b_scaled mul f b.bk; normalized = false;
-        g = (match b.g with Some g -> Some (g_scaled mul f g) | None -> None);
-        p = (match b.p with Some p -> Some (fun x z -> mul f (p x z)) | None -> None) }
+        g = (match b.g with Some g -> Some (g_scaled mul f g) | None -> None); p1 = None;
+        pv = (match b.pv with Some (m, p) -> Some (m, g_scaled mul f p) | None -> None) }
     | "WSUM" ->
       let n = nexti () in
       let lw = List.init (n - 1) (fun _ -> A.parse (next ())) in
@@ -135,15 +146,17 @@ module Make (A : ARITH) = struct
       let ks = List.init n (fun _ -> parse dim) in
       wsum dim ws ks
     | "PROD" -> let n = nexti () in let ks = List.init n (fun _ -> parse dim) in
+      (* ProductKernel: no coded derivative *)
       { k = k_prod one mul (List.map (fun b -> b.k) ks); bk = b_prod one mul (List.map (fun b -> b.bk) ks);
-        normalized = List.for_all (fun b -> b.normalized) ks; g = None; p = None }
+        normalized = List.for_all (fun b -> b.normalized) ks; g = None; p1 = None; pv = None }
     | "SUBR" ->
       let n = nexti () in
       let ks = List.init n (fun _ ->
         let a = nexti () in let b = nexti () in let inner = parse (b - a) in
         let a' = nat_of_int a and b' = nat_of_int b in
         { k = k_sub a' b' inner.k; bk = b_sub a' b' inner.bk; normalized = false;
-          g = (match inner.g with Some g -> Some (g_sub zero (nat_of_int dim) a' b' g) | None -> None); p = None }) in
+          g = (match inner.g with Some g -> Some (g_sub zero (nat_of_int dim) a' b' g) | None -> None); p1 = None;
+          pv = (match inner.pv with Some (m, p) -> Some (m, p_sub a' b' p) | None -> None) }) in
       wsum dim (List.map (fun _ -> one) ks) ks
     | "MODEL" ->
       let m = nexti () in
@@ -151,16 +164,24 @@ module Make (A : ARITH) = struct
       let b = List.init m (fun _ -> A.parse (next ())) in
       let inner = parse m in
       let f = linmap zero add mul w b in
-      { k = k_pull f inner.k; bk = b_pull f inner.bk; normalized = false; g = None; p = None }
+      (* ModelKernel: parameter derivative iff the inner kernel has input and parameter derivative; no input derivative *)
+      { k = k_pull f inner.k; bk = b_pull f inner.bk; normalized = false; g = None; p1 = None;
+        pv = (match inner.g, inner.pv with
+              | Some g, Some (mk, p) -> Some (mk + m * dim + m, p_model zero add mul w b g p)
+              | _ -> None) }
     | s -> failwith ("kernel " ^ s)
   and wsum dim ws ks =
     { k = k_wsum zero add mul div (List.combine ws (List.map (fun b -> b.k) ks));
       bk = b_wsum zero add mul div (List.combine ws (List.map (fun b -> b.bk) ks));
       normalized = false;
-      g = (if List.for_all (fun b -> b.g <> None) ks
-           then Some (g_wsum zero add mul div (nat_of_int dim) (List.combine ws (List.map (fun b -> match b.g with Some g -> g | None -> assert false) ks)))
-           else None);
-      p = None }
+      g = (match all_some (fun b -> b.g) ks with
+           | Some gs -> Some (g_wsum zero add mul div (nat_of_int dim) (List.combine ws gs))
+           | None -> None);
+      p1 = None;
+      pv = (match all_some (fun b -> b.pv) ks with
+            | Some ps -> Some (List.length ks - 1 + List.fold_left (fun s (m, _) -> s + m) 0 ps,
+                               p_wsum zero add mul sub div (List.combine ws (List.combine (List.map (fun b -> b.k) ks) (List.map snd ps))))
+            | None -> None) }
 
   let mstr m = String.concat "," (List.map A.show (List.concat m))
   let field k v = k ^ "=" ^ v
@@ -189,8 +210,9 @@ module Make (A : ARITH) = struct
       let parts = List.map int_of_string parts in
       let base = common nd.k nd.bk nd.normalized x1 x2 parts (A.parse reg) in
       let wi = match nd.g with Some g -> [field "WI" (mstr (wid zero add mul (nat_of_int dim) g c x1 x2))] | None -> [] in
-      let wp = match nd.p with Some p -> [field "WP" (A.show (wpd zero add mul p c x1 x2))] | None -> [] in
-      String.concat " " (A.tag :: base @ wi @ wp)
+      let wp = match nd.pv with Some (m, p) -> [field "WP" (mstr [wpdv zero add mul (nat_of_int m) p c x1 x2])] | None -> [] in
+      let wp1 = match nd.p1 with Some p -> [field "WP1" (A.show (wpd zero add mul p c x1 x2))] | None -> [] in
+      String.concat " " (A.tag :: base @ wi @ wp @ wp1)
     | ("D" :: ns :: _) :: tab :: p1 :: p2 :: parts :: [reg] :: _ ->
       let n = int_of_string ns in
       let t = chunks n (List.map A.parse tab) in
